@@ -198,6 +198,14 @@ func runsFor(prop, tier string) []run {
 			{"rf3-from-3rw", mk(3, rw3), pick(3, 5), minutes(pickf(0.5, 4))},
 			{"rf3-from-2rw+wo", mk(3, rw2wo), pick(3, 5), minutes(pickf(0.5, 4))},
 			{"rf2-from-1rw+wo", mk(2, rw1wo), pick(4, 5), minutes(pickf(0.4, 3))},
+			// the same on REAL replica nodes (real replica.Server behind the real replica/rest router): what a replica
+			// answers to a repeated, an equal or a smaller size is the implementation's, not the model's
+			{"rf2-real-nodes", func() eb.Cfg {
+				c := mk(2, rw2)
+				c.Real = true
+				c.Alphabet = []string{"Resize", "W0", "R"}
+				return c
+			}(), pick(3, 4), minutes(pickf(0.5, 3))},
 		}
 	case "C11rest":
 		mk := func(init []string) eb.Cfg {
